@@ -10,6 +10,7 @@ for these constructs.
 from typing import List, Tuple
 
 from pyopenapi_gen.context.render_context import RenderContext
+from pyopenapi_gen.core.utils import NameSanitizer
 
 from .code_writer import CodeWriter
 from .documentation_writer import DocumentationBlock, DocumentationWriter
@@ -50,6 +51,7 @@ class PythonConstructRenderer:
         description: str | None,
         context: RenderContext,
         discriminator: "IRDiscriminator | None" = None,  # type: ignore[name-defined]
+        mapping_targets: dict[str, tuple[str, str]] | None = None,
     ) -> str:
         """
         Render a type alias assignment as Python code.
@@ -60,6 +62,8 @@ class PythonConstructRenderer:
             description: Optional description for the docstring
             context: The rendering context for import registration
             discriminator: Optional discriminator metadata for Union types
+            mapping_targets: For the schemas the discriminator mapping refers to, the (class name, module stem)
+                their models were emitted under; without an entry both are derived from the schema name
 
         Returns:
             Formatted Python code for the type alias
@@ -106,22 +110,26 @@ class PythonConstructRenderer:
                 # Store discriminator mapping as tuple of tuples (immutable for frozen dataclass)
                 writer.write_line("    # Mapping stored as tuple for frozen dataclass compatibility")
                 writer.write_line("    _mapping_data: tuple[tuple[str, str], ...] = (")
-                for disc_value, schema_ref in discriminator.mapping.items():
+                targets: dict[str, tuple[str, str]] = {}
+                for schema_ref in discriminator.mapping.values():
                     schema_name = schema_ref.split("/")[-1]
-                    writer.write_line(f'        ({python_string_literal(disc_value)}, "{schema_name}"),')
+                    targets[schema_ref] = (mapping_targets or {}).get(schema_name) or (
+                        NameSanitizer.sanitize_class_name(schema_name),
+                        NameSanitizer.sanitize_module_name(schema_name),
+                    )
+                for disc_value, schema_ref in discriminator.mapping.items():
+                    writer.write_line(f'        ({python_string_literal(disc_value)}, "{targets[schema_ref][0]}"),')
                 writer.write_line("    )")
                 writer.write_line("")
                 writer.write_line("    def get_mapping(self) -> dict[str, type]:")
                 writer.write_line('        """Get discriminator mapping with actual type references."""')
                 # Import types locally
                 for disc_value, schema_ref in discriminator.mapping.items():
-                    schema_name = schema_ref.split("/")[-1]
-                    module_name = self._to_module_name(schema_name)
-                    writer.write_line(f"        from .{module_name} import {schema_name}")
+                    class_name, module_name = targets[schema_ref]
+                    writer.write_line(f"        from .{module_name} import {class_name}")
                 writer.write_line("        return {")
                 for disc_value, schema_ref in discriminator.mapping.items():
-                    schema_name = schema_ref.split("/")[-1]
-                    writer.write_line(f"            {python_string_literal(disc_value)}: {schema_name},")
+                    writer.write_line(f"            {python_string_literal(disc_value)}: {targets[schema_ref][0]},")
                 writer.write_line("        }")
             else:
                 writer.write_line("    _mapping_data: tuple[tuple[str, str], ...] | None = None")
